@@ -6,6 +6,9 @@ import (
 	"fmt"
 	"strings"
 
+	gpb "github.com/openconfig/gnmi/proto/gnmi"
+	"github.com/openconfig/ygot/ygot"
+	"github.com/openconfig/ygot/ytypes"
 	"pgregory.net/rapid"
 	"verifharness/ev"
 	"verifharness/model"
@@ -75,7 +78,7 @@ func UnmarshalErr(name, js string) error {
 // ---- F28: wrapper unions cannot unmarshal a binary member from JSON --------------------------------
 
 // F28 is the id of the finding.
-const F28 = "F28-wrapper-union-binary-json"
+const F28 = "F28-wrapper-union-binary"
 
 // WitnessF28 replays the witness of F28.
 func WitnessF28(rec *ev.Rec) {
@@ -100,4 +103,144 @@ func AvoidUnionBinary(f *model.FieldInfo, v model.Val) bool { return f.ElemUnion
 func IsF28(v *model.Variant, m *model.Node, err error) bool {
 	return v.Wrapper && err != nil && strings.Contains(err.Error(), "does not have a union type") &&
 		strings.Contains(err.Error(), "[]uint8") && UnionBinary(m)
+}
+
+// WitnessAll replays the witnesses of the findings shared between the tree checks.
+func WitnessAll(rec *ev.Rec) {
+	WitnessF1(rec)
+	WitnessF2(rec)
+	WitnessF3(rec)
+	WitnessF28(rec)
+}
+
+// ---- F1 / F2 / F3: gNMI encoding and decoding gaps ------------------------------------------------
+
+const (
+	F1 = "F1-int64-list-key"
+	F2 = "F2-empty-leaf-gnmi"
+	F3 = "F3-empty-leaflist-gnmi"
+)
+
+func notifs(name string, build func(v *model.Variant, root *model.Node)) ([]*gpb.Notification, *model.Variant, error) {
+	v := variants.Get(name)
+	m := model.NewNode(v.Root)
+	build(v, m)
+	ns, err := ygot.TogNMINotifications(model.Build(m), 1, ygot.GNMINotificationsConfig{UsePathElem: true})
+	return ns, v, err
+}
+
+func applyNotifs(v *model.Variant, ns []*gpb.Notification) error {
+	sch := &ytypes.Schema{Root: v.NewRoot(), SchemaTree: v.Schema().SchemaTree, Unmarshal: v.Schema().Unmarshal}
+	return ytypes.UnmarshalNotifications(sch, ns)
+}
+
+// child returns (creating) the container field name below n.
+func Child(n *model.Node, name string) *model.Node {
+	f := n.SI.ByName[name]
+	c := n.Cont[name]
+	if c == nil {
+		c = model.NewNode(f.Child)
+		n.Cont[name] = c
+	}
+	return c
+}
+
+// WitnessF1: a list keyed by an int64 leaf cannot be rendered to gNMI paths.
+func WitnessF1(rec *ev.Rec) {
+	rec.Witness(F1, func() (bool, string) {
+		_, _, err := notifs("vtu", func(v *model.Variant, m *model.Node) {
+			k := Child(Child(m, "Top"), "Keyed")
+			f := k.SI.ByName["KI64"]
+			k.List["KI64"] = []*model.Entry{model.NewEntry(f, []model.Val{{K: model.KInt64, I: -5}})}
+		})
+		if err != nil {
+			return true, "TogNMINotifications of /top/keyed/k-i64[k=-5]: " + err.Error()
+		}
+		return false, ""
+	})
+}
+
+// HasInt64Key: some populated list of the tree has an int64 key leaf.
+func HasInt64Key(m *model.Node) bool {
+	return m.AnyVal(func(f *model.FieldInfo, v model.Val) bool { return f.IsKey && v.K == model.KInt64 })
+}
+
+// IsF1Err matches trigger and signature of F1.
+func IsF1Err(m *model.Node, err error) bool {
+	return err != nil && HasInt64Key(m) && strings.Contains(err.Error(), "int64")
+}
+
+// WitnessF2: a YANG empty leaf is emitted as bool_val and then rejected when applied.
+func WitnessF2(rec *ev.Rec) {
+	rec.Witness(F2, func() (bool, string) {
+		ns, v, err := notifs("vtu", func(v *model.Variant, m *model.Node) {
+			Child(m, "Top").Leaf["E"] = model.Val{K: model.KEmpty}
+		})
+		if err != nil {
+			return true, "TogNMINotifications of /top/e: " + err.Error()
+		}
+		if err := applyNotifs(v, ns); err != nil {
+			return true, "UnmarshalNotifications of the update ygot emits for the empty leaf /top/e: " + err.Error()
+		}
+		return false, ""
+	})
+}
+
+// HasEmpty: the tree holds a leaf of type empty.
+func HasEmpty(m *model.Node) bool {
+	return m.AnyVal(func(f *model.FieldInfo, v model.Val) bool { return v.K == model.KEmpty })
+}
+
+// IsF2Err matches trigger and signature of F2.
+func IsF2Err(m *model.Node, err error) bool {
+	return err != nil && HasEmpty(m) && (strings.Contains(err.Error(), "YANGEmpty") || strings.Contains(err.Error(), "empty"))
+}
+
+// WitnessF3: a non-nil empty leaf-list is emitted as an empty leaflist_val and then rejected.
+func WitnessF3(rec *ev.Rec) {
+	rec.Witness(F3, func() (bool, string) {
+		ns, v, err := notifs("vtu", func(v *model.Variant, m *model.Node) {
+			t := Child(m, "Top")
+			t.EmptyLL["LlS"] = true
+			t.Leaf["S"] = model.Val{K: model.KStr, S: "x"}
+		})
+		if err != nil {
+			return true, "TogNMINotifications with an empty non-nil leaf-list: " + err.Error()
+		}
+		if err := applyNotifs(v, ns); err != nil {
+			return true, "UnmarshalNotifications of the update ygot emits for an empty non-nil leaf-list: " + err.Error()
+		}
+		return false, ""
+	})
+}
+
+// IsF3Err matches trigger and signature of F3.
+func IsF3Err(hasEmptyLL bool, err error) bool {
+	return err != nil && hasEmptyLL && strings.Contains(err.Error(), "leaf")
+}
+
+// SteerAway makes the trigger regions of the active findings rare (never absent) in generated trees.
+func SteerAway(rec *ev.Rec, o *model.GenOpts) {
+	f1, f2, f3, f28 := rec.Active(F1), rec.Active(F2), rec.Active(F3), rec.Active(F28)
+	o.Rare = func(f *model.FieldInfo) bool {
+		if f1 && (f.Kind == model.FList || f.Kind == model.FOrdList) {
+			for _, kf := range f.KeyFields {
+				if kf.Type.VKind() == model.KInt64 {
+					return true
+				}
+			}
+		}
+		if f2 && f.Kind == model.FLeaf && f.Type.VKind() == model.KEmpty {
+			return true
+		}
+		return false
+	}
+	if f3 {
+		o.EmptyLLPct = 1
+	}
+	if f28 {
+		o.Avoid = func(f *model.FieldInfo, v model.Val) bool {
+			return f.Owner.V.Wrapper && AvoidUnionBinary(f, v)
+		}
+	}
 }
